@@ -269,7 +269,7 @@ Fixpoint build (c : con) (obj : val) (cx : ctx) (p : path) (o : ostream) {struct
   | CSeek at_ wh =>
       let* a := eval_int cx at_ in
       let* w := eval_int cx wh in
-      let* (r, o') := oseek o a w p in Ok (VInt r, o')
+      let* (r, o') := oseek_user o a w p in Ok (VInt r, o')
   | CStringEncoded c' enc =>
       let enc_of (cps : list N) :=
         match cps with
@@ -427,7 +427,7 @@ Fixpoint build (c : con) (obj : val) (cx : ctx) (p : path) (o : ostream) {struct
       let* o2 := owrite o1 (repeat pat (Z.to_nat pad)) pad p in Ok (r, o2)
   | CPointer off c' =>
       let* a := eval_int cx off in
-      let* (_, o1) := oseek o a (if (a <? 0)%Z then 2 else 0)%Z p in
+      let* (_, o1) := oseek_user o a (if (a <? 0)%Z then 2 else 0)%Z p in
       let* (r, o2) := build c' obj cx p o1 in
       let* (_, o3) := oseek o2 (otell o) 0 p in Ok (r, o3)
   | CPeek _ => Ok (obj, o)
@@ -498,7 +498,7 @@ Fixpoint build (c : con) (obj : val) (cx : ctx) (p : path) (o : ostream) {struct
       let units := chunksn (Z.to_nat eu) (length d) d in
       if negb (Nat.eqb (Nat.modulo (length d) (Z.to_nat eu)) 0) then
         (match decode_units ef (firstn (Nat.div (length d) (Z.to_nat eu)) units) with
-         | Some _ => Err EValue None       (* close(): unwritten bytes remain *)
+         | Some _ => raise EStream p       (* close(): unwritten bytes remain -> StreamError *)
          | None => unsupported end)
       else
         match decode_units ef units with
@@ -510,6 +510,7 @@ Fixpoint build (c : con) (obj : val) (cx : ctx) (p : path) (o : ostream) {struct
       let* k := eval cx key in
       match k with
       | VInt _ | VBytes _ | VBool _ =>
+          let* _ := xor_data k [] p in            (* the pad is validated before the sub-construct is built *)
           let* (r, o2) := build c' obj cx p ostream_new in
           let* d := xor_data k (odata o2) p in
           let* o' := owrite o d (Z.of_nat (length d)) p in Ok (r, o')
